@@ -6,12 +6,14 @@ code reads through `Reader` (bufio_vendor.go), `CountingBufferedReader`, `checks
 `io.ReadAll` and `binary.ReadUvarint`.  The theorems below show that this stack — modelled literally in
 SST/Model/BufReader.lean over an underlying reader that hands out its bytes according to an arbitrary SCHEDULE
 of short and empty reads — returns exactly what the pure-stream model returns:
-for EVERY buffer capacity ≥ 1, EVERY schedule without 100 consecutive empty reads, EVERY byte stream.
+for EVERY requested buffer capacity (0 included), EVERY schedule without 100 consecutive empty reads, EVERY byte stream.
 So "sizes around every buffer and page boundary" is a theorem, not a sample.
 
-Supported capacities: the constructors (`NewReaderBuf`, `BufferedIOFactory.CreateNewReader`,
-`ReaderBufferSizeBytes`) enforce NO minimum.  Capacity ≥ 1 works (theorems below); capacity 0 panics on the first
-`ReadByte`, i.e. on the first `ReadNext`/`SkipNext` (`cap0_readByte_panics` and the concrete example at the end).
+Supported capacities: EVERY requested buffer length.  `NewReaderBuf` replaces a zero-length buffer by a
+16-byte one (`effCap cap = if cap = 0 then 16 else cap`; /repo commit 964130e — before it capacity 0 panicked on
+the first `ReadByte`, i.e. on the first `ReadNext`/`SkipNext`), so a constructed reader always has capacity ≥ 1
+(`constructed_cap_pos`) and `fill`'s panic branch is unreachable; `cap0_reader_works_fixed` is the
+regression theorem on the input that used to panic.
 
 Property theorems only; lemmas are in SST/Proofs/BufReader*.lean.
 -/
@@ -24,25 +26,25 @@ open SST Generated SST.Buf
 
 /-- Any sequence of `ReadByte` / `io.ReadFull(n)` calls on `NewCountingByteReader(NewReaderBuf(u, buf))`:
 every result (byte, bytes, EOF iff nothing is left, ErrUnexpectedEOF iff 0 < available < n) and every value of
-`Count()` equals the one computed on the raw byte stream — for every capacity ≥ 1, every schedule of short and
-empty reads without 100 consecutive empty ones, every data.  Independent of capacity and schedule: the right
-hand side mentions neither. -/
-theorem calls_refine (cap : Nat) (hcap : 1 ≤ cap) (data : Bytes) (sched : List Nat) (hns : NoStall sched)
+`Count()` equals the one computed on the raw byte stream — for EVERY requested capacity (0 included: the
+constructor then uses 16 bytes), every schedule of short and empty reads without 100 consecutive empty ones,
+every data.  Independent of capacity and schedule: the right hand side mentions neither. -/
+theorem calls_refine (cap : Nat) (data : Bytes) (sched : List Nat) (hns : NoStall sched)
     (calls : List Call) :
-    runCalls { rd := Rd.reset cap { rem := data, sched := sched, eofData := false }, count := 0 } calls
+    runCalls { rd := Rd.new cap { rem := data, sched := sched, eofData := false }, count := 0 } calls
       = specCalls data 0 calls :=
-  (calls_refine_aux cap false calls _ data 0
-    (rep_fresh cap { rem := data, sched := sched, eofData := false } hcap hns)).2 rfl
+  (calls_refine_aux (effCap cap) false calls _ data 0
+    (rep_new cap { rem := data, sched := sched, eofData := false } hns)).2 rfl
 
 /-- The same for an underlying reader that returns its last bytes TOGETHER with `io.EOF` (legal for an
 io.Reader): all results are still those of the raw stream; only `Count()` is not claimed (see
 `eofData_not_counted`). -/
-theorem calls_refine_eofData (cap : Nat) (hcap : 1 ≤ cap) (data : Bytes) (sched : List Nat) (hns : NoStall sched)
+theorem calls_refine_eofData (cap : Nat) (data : Bytes) (sched : List Nat) (hns : NoStall sched)
     (ed : Bool) (calls : List Call) :
-    (runCalls { rd := Rd.reset cap { rem := data, sched := sched, eofData := ed }, count := 0 } calls).map
+    (runCalls { rd := Rd.new cap { rem := data, sched := sched, eofData := ed }, count := 0 } calls).map
         CallRes.erase = (specCalls data 0 calls).map CallRes.erase :=
-  (calls_refine_aux cap ed calls _ data 0
-    (rep_fresh cap { rem := data, sched := sched, eofData := ed } hcap hns)).1
+  (calls_refine_aux (effCap cap) ed calls _ data 0
+    (rep_new cap { rem := data, sched := sched, eofData := ed } hns)).1
 
 /-- One `ReadByte` in ANY state of the stack that stands for the raw stream `s` with `k` bytes consumed
 (`CRd.Rep`: capacity ≥ 1, the schedule never stalls, a sticky error is the EOF of an exhausted reader): the next
@@ -72,16 +74,16 @@ theorem readAll_refines (cap : Nat) (ed : Bool) (c : CRd) (s : Bytes) (k : Nat) 
 /-! ## 2. the file reader over the stack = the pure-stream model -/
 
 /-- `Open` over the stack = `parseFileHeader`; afterwards the reader stands behind the 8 header bytes. -/
-theorem bufOpen_eq_parseFileHeader (cap : Nat) (hcap : 1 ≤ cap) (file : Bytes) (sched : List Nat)
+theorem bufOpen_eq_parseFileHeader (cap : Nat) (file : Bytes) (sched : List Nat)
     (hns : NoStall sched) (ed : Bool) :
     ∃ fr', (FileRd.new file cap { rem := file, sched := sched, eofData := ed }).open
         = (liftE (parseFileHeader file), fr') ∧
-      (∀ v ct, parseFileHeader file = .ok (v, ct) → fr'.Rep cap ed file v fileHeaderSize) :=
-  open_spec cap file { rem := file, sched := sched, eofData := ed } hcap hns rfl
+      (∀ v ct, parseFileHeader file = .ok (v, ct) → fr'.Rep (effCap cap) ed file v fileHeaderSize) :=
+  open_spec cap file { rem := file, sched := sched, eofData := ed } hns rfl
 
 /-- `ReadNext` (file version 4) through buffered reader, counting reader, checksum byte reader, ReadUvarint,
 ReadFull and ReadAll returns exactly what `readNextS` returns on the raw stream — same record (nil ≠ empty), same
-error class — in every state that stands at byte `pos` of the file: every capacity ≥ 1, every non-stalling
+error class — in every state that stands at byte `pos` of the file: every effective capacity (≥ 1 by construction, see `bufOpen_eq_parseFileHeader`), every non-stalling
 schedule, every file content (valid, damaged, cut), with or without data-with-EOF.  After a success the reader
 stands behind the record.  Hence C04's and C12's reader theorems hold for the real stack. -/
 theorem bufReadNext_eq_readNextS (cap : Nat) (ed : Bool) (cmp : Compression) (grow : Nat → Nat)
@@ -111,25 +113,25 @@ theorem bufReadNext_legacy (cap : Nat) (ed : Bool) (cmp : Compression) (grow : N
       (∀ r n, readNextSV v cmp (file.drop pos) = .ok (r, n) → fr'.Rep cap ed file v (pos + n)) :=
   readNext_spec cap ed cmp grow hg file v hv fr pos hrep
 
-/-- Whole programs: open a file of version 2, 3 or 4 with ANY buffer capacity ≥ 1 over ANY non-stalling read
+/-- Whole programs: open a file of version 2, 3 or 4 with ANY requested buffer capacity over ANY non-stalling read
 schedule and run ANY program of ReadNext / SkipNext up to its first error: the outputs are exactly those of the
 pure-stream model (`streamRun`, which for version 4 is `readNextS` / `skipNextS`). -/
-theorem bufFile_eq_stream (cap : Nat) (hcap : 1 ≤ cap) (file : Bytes) (sched : List Nat) (hns : NoStall sched)
+theorem bufFile_eq_stream (cap : Nat) (file : Bytes) (sched : List Nat) (hns : NoStall sched)
     (cmp : Compression) (grow : Nat → Nat) (hg : ∀ x, x < grow x) (maxOff : Nat) (hmax : maxOff < 2 ^ 63)
     (v ct : Nat)
     (hp : parseFileHeader file = .ok (v, ct)) (hv : v = 2 ∨ v = 3 ∨ v = 4) (ops : List ROp)
     (hfit : skipsFit v cmp maxOff file fileHeaderSize ops = true) :
     ∃ fr, (FileRd.new file cap { rem := file, sched := sched, eofData := false }).open = (.ok (v, ct), fr) ∧
       bufRun cmp grow maxOff fr ops = streamRun v cmp file fileHeaderSize ops := by
-  obtain ⟨fr, h1, h2⟩ := open_spec cap file { rem := file, sched := sched, eofData := false } hcap hns rfl
+  obtain ⟨fr, h1, h2⟩ := open_spec cap file { rem := file, sched := sched, eofData := false } hns rfl
   rw [hp] at h1
-  exact ⟨fr, h1, bufRun_eq_streamRun cap cmp grow hg maxOff hmax file v hv ops fr _ (h2 v ct hp) hfit⟩
+  exact ⟨fr, h1, bufRun_eq_streamRun (effCap cap) cmp grow hg maxOff hmax file v hv ops fr _ (h2 v ct hp) hfit⟩
 
 /-- C04's sequential round trip for the REAL reader stack: any records (nil, empty, any bytes, any lawful
-compressor) written back to back after the file header, read through the buffered stack with any capacity ≥ 1
+compressor) written back to back after the file header, read through the buffered stack with any requested capacity
 over any non-stalling schedule of short and empty reads: `Open` succeeds and `ReadNext` yields exactly the
 records, nil distinguished from empty, then end-of-file. -/
-theorem buffered_seq_roundtrip (cap : Nat) (hcap : 1 ≤ cap) (sched : List Nat) (hns : NoStall sched)
+theorem buffered_seq_roundtrip (cap : Nat) (sched : List Nat) (hns : NoStall sched)
     (c : Compression) (ct : Nat) (hct : ct ≤ maxCompression) (rs : List GoBytes)
     (hl : LawfulC c) (hf : ∀ r ∈ rs, FitsRec c r) (grow : Nat → Nat) (hg : ∀ x, x < grow x)
     (maxOff : Nat) (hmax : maxOff < 2 ^ 63) :
@@ -144,7 +146,7 @@ theorem buffered_seq_roundtrip (cap : Nat) (hcap : 1 ≤ cap) (sched : List Nat)
     (List.replicate rs.length .read ++ [.read])
     (by intro o ho; simp only [List.mem_append, List.mem_replicate, List.mem_singleton] at ho
         rcases ho with ⟨_, h⟩ | h <;> exact h) fileHeaderSize
-  obtain ⟨fr, h1, h2⟩ := bufFile_eq_stream cap hcap _ sched hns c grow hg maxOff hmax currentVersion ct hp
+  obtain ⟨fr, h1, h2⟩ := bufFile_eq_stream cap _ sched hns c grow hg maxOff hmax currentVersion ct hp
     (Or.inr (Or.inr rfl)) _ hfit
   refine ⟨fr, h1, ?_⟩
   rw [h2]
@@ -162,22 +164,20 @@ theorem no_progress_reported (b : Rd) (hp : b.pend = []) (he : b.err = none) (hc
 
 /-! ## 4. quirks -/
 
-/-- QUIRK (capacity 0).  No constructor rejects a zero-length buffer; with it `ReadByte` panics
-("bufio: tried to fill full buffer").  `Read`/`ReadFull` still work (every read is a "large read"), so `Open`
-succeeds and the first `ReadNext`/`SkipNext` panics.  Reachable through the public option
-`recordio.ReaderBufferSizeBytes(0)`. -/
-theorem cap0_readByte_panics (b : Rd) (hcap : b.cap = 0) (hp : b.pend = []) (he : b.err = none) :
-    b.readByte = (.error .panicFill, b) :=
-  readByte_cap0_panics b hcap hp he
+/-- A reader made by `NewReaderBuf` never has capacity 0 (a zero-length buffer is replaced by 16 bytes), so the
+literal panic branch of `fill` ("bufio: tried to fill full buffer") cannot be reached from the constructors
+`NewReaderBuf`, `BufferedIOFactory.CreateNewReader`, `NewFileReader(ReaderBufferSizeBytes(n))`. -/
+theorem constructed_cap_pos (cap : Nat) (u : Under) : 0 < (Rd.new cap u).cap :=
+  Buf.constructed_cap_pos cap u
 
 /-- QUIRK (data together with EOF).  When the underlying reader returns its last bytes together with `io.EOF`
-and the read bypasses the buffer (len(p) ≥ capacity), `Reader.Read` returns `(n, EOF)`,
+and the read bypasses the buffer (len(p) ≥ effective capacity), `Reader.Read` returns `(n, EOF)`,
 `CountingBufferedReader.Read` does not count those `n` bytes, and `io.ReadFull` returns them with a nil error:
 the data is right, `Count()` is too small by `n`.  `os.File` never returns `(n>0, EOF)`, so the file reader's
 offset bookkeeping is not affected; the exported `NewCountingByteReader(NewReaderBuf(r, buf))` over another
 io.Reader is. -/
-theorem eofData_not_counted (cap k : Nat) (d : Bytes) (hd : d ≠ []) (hcap : cap ≤ d.length) :
-    let c : CRd := { rd := Rd.reset cap { rem := d, sched := [], eofData := true }, count := k }
+theorem eofData_not_counted (cap k : Nat) (d : Bytes) (hd : d ≠ []) (hcap : effCap cap ≤ d.length) :
+    let c : CRd := { rd := Rd.new cap { rem := d, sched := [], eofData := true }, count := k }
     (c.readFull d.length).data = d ∧ (c.readFull d.length).err = none ∧ (c.readFull d.length).st.count = k :=
   readFull_uncounted cap k d hd hcap
 
@@ -190,26 +190,26 @@ example : NoStall [3, 0, 0, 1, 0, 7] := by decide
 example : 100 ≤ zeroRun (List.replicate 100 0 ++ [5]) := by decide +kernel
 
 /-- `calls_refine` on a concrete case: capacity 2, schedule 1,0,2, mixed calls -/
-example : runCalls { rd := Rd.reset 2 { rem := [1, 2, 3, 4], sched := [1, 0, 2], eofData := false }, count := 0 }
+example : runCalls { rd := Rd.new 2 { rem := [1, 2, 3, 4], sched := [1, 0, 2], eofData := false }, count := 0 }
       [.readByte, .readFull 2, .readFull 3, .readByte]
     = [.byte (.ok 1) 1, .bytes [2, 3] none 3, .bytes [4] (some (.e .unexpectedEof)) 4,
        .byte (.error (.e .eof)) 4] := by decide
 
-/-- the state hypothesis `CRd.Rep` holds of every freshly constructed stack -/
-example (cap : Nat) (hcap : 1 ≤ cap) (data : Bytes) (sched : List Nat) (hns : NoStall sched) (ed : Bool) :
-    ({ rd := Rd.reset cap { rem := data, sched := sched, eofData := ed }, count := 0 } : CRd).Rep cap ed data 0 :=
-  rep_fresh cap { rem := data, sched := sched, eofData := ed } hcap hns
+/-- the state hypothesis `CRd.Rep` holds of every freshly constructed stack, whatever capacity was requested -/
+example (cap : Nat) (data : Bytes) (sched : List Nat) (hns : NoStall sched) (ed : Bool) :
+    ({ rd := Rd.new cap { rem := data, sched := sched, eofData := ed }, count := 0 } : CRd).Rep (effCap cap) ed data 0 :=
+  rep_new cap { rem := data, sched := sched, eofData := ed } hns
 
 /-- the count quirk, concretely: three bytes delivered with EOF through a 2-byte buffer, `Count()` stays 0 -/
-example : (({ rd := Rd.reset 2 { rem := [1, 2, 3], sched := [], eofData := true }, count := 0 } : CRd).readFull 3).data
+example : (({ rd := Rd.new 2 { rem := [1, 2, 3], sched := [], eofData := true }, count := 0 } : CRd).readFull 3).data
       = [1, 2, 3] ∧
-    (({ rd := Rd.reset 2 { rem := [1, 2, 3], sched := [], eofData := true }, count := 0 } : CRd).readFull 3).st.count
+    (({ rd := Rd.new 2 { rem := [1, 2, 3], sched := [], eofData := true }, count := 0 } : CRd).readFull 3).st.count
       = 0 := by decide
 
 /-- 100 empty reads, concretely: error, and the byte is still there for the next call -/
-example : ((Rd.reset 4 { rem := [9], sched := List.replicate 100 0, eofData := false }).readByte).1
+example : ((Rd.new 4 { rem := [9], sched := List.replicate 100 0, eofData := false }).readByte).1
       = .error .noProgress ∧
-    (((Rd.reset 4 { rem := [9], sched := List.replicate 100 0, eofData := false }).readByte).2.readByte).1
+    (((Rd.new 4 { rem := [9], sched := List.replicate 100 0, eofData := false }).readByte).2.readByte).1
       = .ok 9 := by decide +kernel
 
 /-- a small version-4 file: a record, a nil record, an empty record -/
@@ -225,10 +225,18 @@ example : bufRun none (· + 1) (2 ^ 63 - 1)
       [.read, .skip, .read, .read]
     = [.record (some [7, 8]), .skipped, .record (some []), .fail (.e .eof)] := by decide +kernel
 
-/-- QUIRK (capacity 0) through the public file reader, concretely: `Open` succeeds, `ReadNext` panics -/
-example : ((FileRd.new demoFile 0 { rem := demoFile, sched := [], eofData := false }).open).1 = .ok (4, 0) ∧
-    ((((FileRd.new demoFile 0 { rem := demoFile, sched := [], eofData := false }).open).2).readNext none
-      (· + 1)).1 = .error .panicFill := by decide +kernel
+/-- REGRESSION (/repo commit 964130e, "fix: a reader with buffer size 0 panicked on its first read").
+`recordio.NewFileReader(ReaderPath(p), ReaderBufferSizeBytes(0))` on `demoFile`: before the fix `Open` succeeded
+and the first `ReadNext` panicked ("bufio: tried to fill full buffer"); now the whole file reads back —
+record, skipped nil record, empty record, end-of-file — and so does a byte-wise reader with a requested
+capacity of 0. -/
+theorem cap0_reader_works_fixed :
+    ((FileRd.new demoFile 0 { rem := demoFile, sched := [], eofData := false }).open).1 = .ok (4, 0) ∧
+    bufRun none (· + 1) (2 ^ 63 - 1)
+        ((FileRd.new demoFile 0 { rem := demoFile, sched := [], eofData := false }).open).2
+        [.read, .skip, .read, .read]
+      = [.record (some [7, 8]), .skipped, .record (some []), .fail (.e .eof)] ∧
+    ((Rd.new 0 { rem := [9], sched := [], eofData := false }).readByte).1 = .ok 9 := by decide +kernel
 
 /-- a header that passes the checksum and claims 2^63 bytes -/
 def hugeFile : Bytes := fileHeader 4 0 ++ encHeader false (2 ^ 63) 0
